@@ -321,6 +321,7 @@ def check_C10(ctx, rep):
     if pda_rules.check_push_pop_split(ctx, rep, P('pda_algorithms.pda_to_push_pop_in_place')) < 9:
         raise AnalysisError('push/pop case split not evaluated')
     pda_rules.check_pda_to_cfg_pipeline(ctx, rep, P('pda_algorithms.pda_to_cfg'))
+    pda_rules.check_push_pop_predicate(ctx, rep, P('pda_algorithms.pda_is_push_pop'))
     pda_rules.check_empty_stack_form(ctx, rep, P('pda_algorithms.pda_to_accept_on_empty_stack_in_place'))
     if pda_rules.check_added_transitions_push_pop(ctx, rep, P('pda_algorithms.pda_to_accept_on_empty_stack_in_place')) < 2:
         raise AnalysisError('transition insertion sites of the empty-stack form vanished')
@@ -510,6 +511,7 @@ def check_C15(ctx, rep):
     models.check_backward_word(ctx, rep, P('pda_algorithms.pda_simulate_word'))
     if misc.check_arity(ctx, rep, P('cfg_algorithms.cfg_derive_word')) < 1:
         raise AnalysisError('right-hand-side unpack in cfg_derive_word vanished')
+    pda_rules.check_find_transition(ctx, rep, P('pda_algorithms.pda_find_transition'))
     if work.check_single_expansion(ctx, rep, P('cfg_algorithms.cfg_derive_word')) < 1:
         raise AnalysisError('tree-building loop of cfg_derive_word vanished')
     _effect_on(ctx, rep, ['dfa_algorithms.dfa_simulate_word', 'nfa_algorithms.nfa_simulate_word', 'pda_algorithms.pda_simulate_word',
@@ -532,6 +534,8 @@ def check_C18(ctx, rep):
     if _eps_in(ctx, rep, ['nfa_algorithms.nfa_union', 'nfa_algorithms.nfa_repetition', 'nfa_algorithms.nfa_concatenation']) < 3:
         raise AnalysisError('NFA constructor sites of the building blocks vanished')
     fresh.check_eps_translation(ctx, rep, ctx.prog.func('nfa_algorithms._add_nfa_transitions'))
+    # the language of a result is what nfa_accepts_word says about it: its decisions are taken on epsilon-closed sets
+    _closed(ctx, rep, ['nfa_algorithms.nfa_accepts_word'], 2)
     P = ctx.prog.func
     U, C, R_ = P('nfa_algorithms.nfa_union'), P('nfa_algorithms.nfa_concatenation'), P('nfa_algorithms.nfa_repetition')
     two = lambda x: {'A': {'N1.' + x}, 'B': {'N2.' + x}}
@@ -649,6 +653,7 @@ def _with_hidden_state(pid, fn):
                 sfuncs.append(g0)
                 st.extend(g0.nested.values())
         sorts.check_sorts(ctx, rep, sfuncs)
+        sorts.check_grammar_symbol_sorts(ctx, rep, sfuncs)
         rep.clauses_decided.append('the declared sorts State / Symbol / Direction (NewTypes of the repository) are respected in memberships, comparisons, set algebra, mapping keys and arguments inside the operations of this property (R-SORT)')
         rep.clauses_decided.append('encodings that carry identity inside the operations of this property are injective: names of composite states, __eq__ of the value classes, look-up keys built from printed forms; the input word is consumed unmodified (R-INJ on the call-graph closure)')
     return wrapped
